@@ -727,6 +727,10 @@ class VM:
                     proto = constructor.get("prototype")
                     if proto is None or proto is UNDEFINED:
                         proto = getattr(constructor, "_prototype", None)
+                if isinstance(constructor, JSFunction) and not isinstance(proto, JSObject):
+                    raise JSTypeError(
+                        "Function has non-object prototype in instanceof check"
+                    )
 
                 # Walk the prototype chain
                 result = False
